@@ -4,17 +4,17 @@ import json
 import os
 import sys
 
-sys.path.insert(0, "/verif/harness")
+ROOT = os.path.dirname(os.path.dirname(os.path.abspath(__file__)))
 os.environ.setdefault("PYTHONPATH", "/repo/src")
 NOT_BUILT = "no check is committed for this property yet (framework under construction; planned design in DESIGN.md section 6)"
 
 
 def main():
-    props = [json.loads(l) for l in open("/verif/properties.jsonl")]
+    props = [json.loads(l) for l in open(ROOT + "/properties.jsonl")]
     checks, na = [], []
     for p in props:
         pid = p["id"]
-        path = "/verif/harness/props/%s.py" % pid.lower()
+        path = ROOT + "/harness/props/%s.py" % pid.lower()
         claim = None
         if os.path.exists(path):
             src = open(path).read()
@@ -57,7 +57,7 @@ def main():
         "notes": "DESIGN.md explains approach, trusted base and per-property status; known_findings.json lists recorded defects; seeded/ holds independently produced breaking changes and which checks catch them.",
         "not_applicable": na,
     }
-    with open("/verif/MANIFEST.json", "w") as f:
+    with open(ROOT + "/MANIFEST.json", "w") as f:
         json.dump(m, f, indent=1)
     print("checks:", [c["property_id"] for c in checks])
 
